@@ -251,3 +251,14 @@ reg("C31", "exploration", "E1",
     "assignment), thorough adds n=4 and python n=5 families: a false reference verdict must raise before the body runs (empty log), a "
     "true verdict must run; checked at _check_rules() and through the public submission.",
     "'set' = not None and not False; the flat list requires=[f,g] (documented AND, parsed as OR) is evaluated both ways and skipped where they differ; other falsy values are outside the alphabet.")
+
+reg("C10", "model_checking", "E4",
+    "preemption-bounded exhaustive interleaving exploration of concurrent submitters under a controlled scheduler (real code, real file locks)",
+    "2 (and 3) submitter threads, each a real Submitter + debug worker + filelock, submit the same python task into one shared "
+    "cache root from {empty, complete result, leftover incomplete directory} with a fast and a yielding body; every interleaving of "
+    "their file-system operations under the root (audited operations, os.stat/lstat, both halves of every pickle written by save(), "
+    "every time.sleep poll) with <=2 preemptions for the empty/fast case and <=1 otherwise (thorough: <=3 / <=2, 3 threads <=2) is "
+    "executed; the body must run exactly once (0 with an existing result), every submitter returns the same complete outputs, "
+    "nobody raises (torn result), no deadlock/livelock.",
+    "Processes are modelled by threads sharing only the file system (own Submitter/Job objects, per-thread cwd, same PID in lock files = owner alive); "
+    "a yielding poller hands over fairly (no branching) so that poll loops cannot ping-pong; per-subtree execution caps are reported.")
